@@ -124,6 +124,12 @@ type Frag struct {
 
 var probeCalls int
 
+var bigLiteral = "BIG<" + strings.Repeat("0123456789abcdef", 320) + ">" // 5125 bytes
+
+type sinkWriter struct{ b []byte }
+
+func (w *sinkWriter) Write(p []byte) (int, error) { w.b = append(w.b, p...); return len(p), nil }
+
 func frags() []Frag {
 	f := []Frag{
 		{"text", "x", "x"},
@@ -146,6 +152,12 @@ func frags() []Frag {
 		{"commenttag-endname-path", "{% comment %}{{ a.endcomment }}{{ 1 }}{% if 1 %}S2{% endif %}{% endcomment %}", ""},
 		{"commenttag-endname-expr", "{% comment %}{% if 1 == endcomment %}S3{% endif %}{{ 2 }}{% endcomment %}", ""},
 		{"commenttag-nested-open", "{% comment %}{% comment %}S4{% endcomment %}", ""},
+		// literal bytes that are white space for Unicode but not for the template language, next to trimming delimiters
+		{"text-between-dashes", "{{ 1 -}}\f\u00a0X\u0085\v{{- 1 }}", "1\f\u00a0X\u0085\v1"},
+		{"text-between-dash-tags", "{% if 1 -%}\vY\u2028{%- endif %}", "\vY\u2028"},
+		// a piece larger than any internal buffer is likely to be
+		{"text-big", bigLiteral, bigLiteral},
+		{"verbatim-big", "{% verbatim %}" + bigLiteral + "{% endverbatim %}", bigLiteral},
 		{"verbatim-in-verbatim", "{% verbatim %}a{% verbatim %}b{% endverbatim %}", "a{% verbatim %}b"},
 		{"verbatim-commenttag", "{% verbatim %}{% comment %}x{% endcomment %}{% endverbatim %}", "{% comment %}x{% endcomment %}"},
 		{"verbatim-nl", "{% verbatim %}\n{{\n{% endverbatim %}", "\n{{\n"},
@@ -235,6 +247,16 @@ func (c *SeqCase) Exec(t *eng.T) {
 	if o2 := px.RenderBytesScribbled(pongo2.NewSet("c06-bytes", pongo2.MustNewLocalFileSystemLoader("")), src.String(), ctx); !o2.Failed() && o2.S != want.String() {
 		t.Fail("concat-frombytes:"+kindKey, "fragments %s: source %q compiled with FromBytes renders to %q after the caller reused its buffer, want %q", c.ID(), src.String(), o2.S, want.String())
 	}
+	// the unbuffered entry point writes the same bytes in the same order
+	if tpl, _ := px.Compile(pongo2.NewSet("c06-unbuffered", pongo2.MustNewLocalFileSystemLoader("")), src.String()); tpl != nil {
+		w := &sinkWriter{}
+		site, msg, pan := eng.Protect(func() { tpl.ExecuteWriterUnbuffered(ctx, w) })
+		if pan {
+			t.Fail("concat-unbuffered-panic:"+kindKey, "fragments %s: ExecuteWriterUnbuffered panics: %s (%s)", c.ID(), msg, site)
+		} else if string(w.b) != want.String() {
+			t.Fail("concat-unbuffered:"+kindKey, "fragments %s: ExecuteWriterUnbuffered writes %s, want %s", c.ID(), clip(string(w.b)), clip(want.String()))
+		}
+	}
 	if probeCalls != 0 {
 		t.Fail("comment-evaluated:"+kindKey, "fragments %s: a function inside a comment was called %d times", c.ID(), probeCalls)
 	}
@@ -316,4 +338,11 @@ func init() {
 		},
 		Run: run,
 	})
+}
+
+func clip(s string) string {
+	if len(s) > 160 {
+		return fmt.Sprintf("%q...(%d bytes)", s[:160], len(s))
+	}
+	return fmt.Sprintf("%q", s)
 }
